@@ -192,6 +192,8 @@ func main() {
 		inventory(pos[1])
 	case "e1dump":
 		e1dump(pos[1], pos[2], len(pos) > 3)
+	case "e1events":
+		e1events(pos[1], pos[2])
 	case "callees":
 		calleeInventory(pos[1])
 	case "selftest":
